@@ -180,6 +180,9 @@ structure Mod where
   fwds : List Fwd
   /-- `env.global_modules` of the module (`as *`): where its own functions look up free variables -/
   globals : List Nat
+  /-- `env.modules` of the module (namespace ↦ module); kept so that the whole dependency graph of
+      the completed modules can be read off the cache (`ModsWF`) -/
+  nss : List (Ident × Nat)
   deriving DecidableEq, Repr, Inhabited
 
 def Mod.names (m : Mod) : Kind → List Ident
@@ -388,7 +391,7 @@ structure Env where
 
 def Env.new (p : Ident) : Env := ⟨p, [], [], [], [], [], []⟩
 
-def Env.toMod (e : Env) : Mod := ⟨e.path, e.vars, e.fns, e.mixins, e.fwds, e.globals⟩
+def Env.toMod (e : Env) : Mod := ⟨e.path, e.vars, e.fns, e.mixins, e.fwds, e.globals, e.nss⟩
 
 structure Out (α : Type) where
   st : St
@@ -649,6 +652,12 @@ def specGet (k : Kind) : List Mod → Nat → Ident → Option Origin
       (if !isPrivate n && (m.names k).contains n then some ⟨id, n⟩ else none).or
         (m.fwds.reverse.findSome? fun f => fwdSpecGet f.rule k (specGet k rest f.target) n)
     else specGet k rest id n
+
+/-- every reference a completed module holds (forwards, `as *`, namespaces) points to a module
+    completed before it: the dependency graph of the cache is well-founded, hence acyclic -/
+def ModsWF (ms : List Mod) : Prop :=
+  ∀ i m, modAt ms i = some m →
+    (∀ f ∈ m.fwds, f.target < i) ∧ (∀ g ∈ m.globals, g < i) ∧ (∀ e ∈ m.nss, e.2 < i)
 
 def cssCount (p : Ident) (t : List Event) : Nat := (cssOf t).count p
 
